@@ -3,6 +3,7 @@ C15 — property theorems of round 4: the identity of nodes (`lang.Repr`), end-t
 -/
 import GoZero.C15.Props
 import GoZero.C15.ReprProofs
+import GoZero.C15.Proofs6
 namespace GoZero.C15
 
 /-! ### `lang.Repr` does not alias different numbers, whatever their Go types -/
@@ -147,5 +148,108 @@ theorem typed_remove_only_removes_that_number (H : Hasher) (R0 : Int) (ops : Lis
       (members R0 (ops ++ [.remove a.toNode])).find (reprOf b) = (members R0 ops).find (reprOf b) :=
   ⟨removed_never_returned H R0 ops a.toNode k v h,
    distinct_numbers_do_not_alias R0 ops (.remove a.toNode) a b x y ha hb hxy rfl⟩
+
+/-! ### minimal disruption under a LOCAL hypothesis (clauses 5–7 beyond NoCollision)
+
+`NoCollision` asks that NO two virtual nodes in play share a hash value.  What the proofs need is only that the
+virtual node serving THIS key — before or after the operation — belongs to one node (`LandsAlone`).  All other keys
+of a ring with collisions (e.g. the label coincidence "n"+"10" = "n1"+"0" under every hash) obey minimal disruption
+too.  The hypothesis is still necessary: in `disruption_needs_no_collision` the key lands on shared virtual nodes
+before and after. -/
+
+/-- the virtual node that serves `k` is owned by at most one node, before or after `op` -/
+def LandsAlone (H : Hasher) (R0 : Int) (ops : List Op) (op : Op) (k : Node) : Prop :=
+  (landing H (run H R0 ops) k).length ≤ 1 ∨ (landing H (run H R0 (ops ++ [op])) k).length ≤ 1
+
+/-- strictly weaker than the global hypothesis (one side suffices) -/
+theorem landsAlone_of_noCollision (H : Hasher) (R0 : Int) (ops : List Op) (op : Op) (k : Node)
+    (hnc : NoCollision H (members R0 ops)) : LandsAlone H R0 ops op k :=
+  Or.inl (landing_le_one_of_noCollision (inv_run H R0 ops) hnc k)
+
+/-- one operation, all three cases at once, local hypothesis -/
+theorem op_moves_only_to_or_from_local (H : Hasher) (R0 : Int) (ops : List Op) (op : Op) (k : Node)
+    (hloc : LandsAlone H R0 ops op k) :
+    get H (run H R0 (ops ++ [op])) k = get H (run H R0 ops) k
+    ∨ (∃ v, get H (run H R0 ops) k = .node v ∧ v.repr = op.repr)
+    ∨ (∃ v, get H (run H R0 (ops ++ [op])) k = .node v ∧ v.repr = op.repr) := by
+  apply step_moves_only_local (inv_run H R0 ops) (inv_run H R0 (ops ++ [op])) op.repr ?_ k hloc
+  intro r' hr'
+  show (members R0 ops).find r' = (members R0 (ops ++ [op])).find r'
+  unfold members
+  rw [specRun_snoc, specStep_find _ _ _ _ hr']
+
+/-- **adding a new node changes the assignment only of keys that move to it** — for every key served by an unshared
+virtual node -/
+theorem add_moves_only_to_new_local (H : Hasher) (R0 : Int) (ops : List Op) (op : Op) (n : Node) (hop : op.adds n)
+    (hnew : (members R0 ops).find n.repr = none) (k : Node) (hloc : LandsAlone H R0 ops op k) :
+    get H (run H R0 (ops ++ [op])) k = get H (run H R0 ops) k ∨ get H (run H R0 (ops ++ [op])) k = .node n := by
+  rcases op_moves_only_to_or_from_local H R0 ops op k hloc with h | ⟨v, hv, hr⟩ | ⟨v, hv, hr⟩
+  · exact Or.inl h
+  · exfalso
+    obtain ⟨c, hf, _⟩ := get_member_only H R0 ops k v hv
+    rw [hr, adds_repr hop, hnew] at hf
+    cases hf
+  · right
+    obtain ⟨c, hf, _⟩ := get_member_only H R0 _ k v hv
+    obtain ⟨c', hf'⟩ := adds_find (R := (CH.new R0).replicas) (m := specRun (CH.new R0).replicas ops) hop
+    unfold members at hf
+    rw [specRun_snoc, hr, adds_repr hop, hf'] at hf
+    have : n = v := by injection hf with h; injection h
+    rw [hv, this]
+
+/-- **removing a node changes the assignment only of keys that were assigned to it** — local hypothesis -/
+theorem remove_moves_only_from_removed_local (H : Hasher) (R0 : Int) (ops : List Op) (n : Node) (k : Node)
+    (hloc : LandsAlone H R0 ops (.remove n) k) :
+    get H (run H R0 (ops ++ [.remove n])) k = get H (run H R0 ops) k
+    ∨ ∃ v, get H (run H R0 ops) k = .node v ∧ v.repr = n.repr := by
+  rcases op_moves_only_to_or_from_local H R0 ops (.remove n) k hloc with h | h | ⟨v, hv, hr⟩
+  · exact Or.inl h
+  · exact Or.inr h
+  · exact absurd hr (removed_never_returned H R0 ops n k v hv)
+
+/-- **re-adding a node with a different replica count or weight only moves keys to or from that node** — local -/
+theorem reweight_moves_only_to_or_from_local (H : Hasher) (R0 : Int) (ops : List Op) (op : Op) (n : Node) (hop : op.adds n)
+    (k : Node) (hloc : LandsAlone H R0 ops op k) :
+    get H (run H R0 (ops ++ [op])) k = get H (run H R0 ops) k
+    ∨ (∃ v, get H (run H R0 ops) k = .node v ∧ v.repr = n.repr)
+    ∨ get H (run H R0 (ops ++ [op])) k = .node n := by
+  rcases op_moves_only_to_or_from_local H R0 ops op k hloc with h | ⟨v, hv, hr⟩ | ⟨v, hv, hr⟩
+  · exact Or.inl h
+  · exact Or.inr (Or.inl ⟨v, hv, by rw [hr, adds_repr hop]⟩)
+  · right; right
+    obtain ⟨c, hf, _⟩ := get_member_only H R0 _ k v hv
+    obtain ⟨c', hf'⟩ := adds_find (R := (CH.new R0).replicas) (m := specRun (CH.new R0).replicas ops) hop
+    unfold members at hf
+    rw [specRun_snoc, hr, adds_repr hop, hf'] at hf
+    have : n = v := by injection hf with h; injection h
+    rw [hv, this]
+
+/-- the driver's per-probe disruption test (`landsAlone` evaluated on the model's states before and after) accepts
+every pair of answers of the model: sound also in rings WITH collisions -/
+theorem monitor_sound_disruption_local (H : Hasher) (R0 : Int) (ops : List Op) (op : Op) (k : Node)
+    (h : landsAlone H (run H R0 ops) (run H R0 (ops ++ [op])) k = true) :
+    disruptOk op.repr (decide ((members R0 ops).cnt op.repr > 0)) (decide ((members R0 (ops ++ [op])).cnt op.repr > 0))
+      (get H (run H R0 ops) k) (get H (run H R0 (ops ++ [op])) k) = true := by
+  apply disruptOk_sound_local (inv_run H R0 ops) (inv_run H R0 (ops ++ [op])) op.repr ?_ k h
+  intro r' hr'
+  show (members R0 ops).find r' = (members R0 (ops ++ [op])).find r'
+  unfold members
+  rw [specRun_snoc, specStep_find _ _ _ _ hr']
+
+section LocalExamples
+open Pinned (W n n1 x)
+set_option maxRecDepth 100000
+
+/-- non-vacuity: a ring WITH a collision (`NoCollision` fails: "n"+"10" = "n1"+"0"), a key that lands on the shared
+virtual node before and on `x`'s own virtual node after `AddWithReplicas(x, 3)`: the local hypothesis holds and the
+key moves to the new node -/
+example : noCollision W (members 0 [.addR n 11, .addR n1 1]) = false ∧
+    landsAlone W (run W 0 [.addR n 11, .addR n1 1]) (run W 0 ([.addR n 11, .addR n1 1] ++ [.addR x 3])) ⟨"s", "na"⟩ = true ∧
+    get W (run W 0 [.addR n 11, .addR n1 1]) ⟨"s", "na"⟩ = .node n1 ∧
+    get W (run W 0 ([.addR n 11, .addR n1 1] ++ [.addR x 3])) ⟨"s", "na"⟩ = .node x := by decide
+
+example : LandsAlone W 0 [.addR n 11, .addR n1 1] (.addR x 3) ⟨"s", "na"⟩ := Or.inr (by decide)
+
+end LocalExamples
 
 end GoZero.C15
